@@ -106,9 +106,43 @@ def run_tlc(ck, module, consts, invariants, *, spec="Spec", simulate=None, depth
     return res
 
 
-def run_impl(h, srcs, *, abs_=False, shards=4, fresh=False, timeout_ms=5000):
+def run_impl(h, srcs, *, abs_=False, shards=4, fresh=False, timeout_ms=5000, expect_hang=()):
+    """Run programs in the real interpreter. A program that hits the timeout (the machine is shared and at times so
+    loaded that a process is not scheduled for seconds) is run once more, alone, with a generous timeout, unless the
+    caller expects it to hang (expect_hang: indices)."""
     vecs = [{"src": s, "abs": abs_, "fresh": fresh, "timeout_ms": timeout_ms} for s in srcs]
-    return vlib.run_harness(h, "isrun", vecs, shards=shards, timeout=1800, env_extra={"GOMAXPROCS": "2"})
+    res = vlib.run_harness(h, "isrun", vecs, shards=shards, timeout=1800, env_extra={"GOMAXPROCS": "2"})
+    again = [i for i, r in enumerate(res) if (r.get("timeout") or r.get("status") in (-2, -3)) and i not in expect_hang]
+    if again:
+        r2 = vlib.run_harness(h, "isrun", [dict(vecs[i], timeout_ms=20000) for i in again[:200]], shards=1, timeout=1800,
+                              env_extra={"GOMAXPROCS": "2"})
+        for i, r in zip(again, r2):
+            res[i] = r
+    return res
+
+
+def _timed_out(r):
+    """Does any run recorded in an engine result carry a timeout / start failure?"""
+    if isinstance(r, dict):
+        if r.get("timeout") or r.get("status") in (-2, -3):
+            return True
+        return any(_timed_out(v) for v in r.values())
+    if isinstance(r, list):
+        return any(_timed_out(v) for v in r)
+    return False
+
+
+def run_engine(h, engine, jobs, *, shards=4, pred=None):
+    """run_harness + one more try, alone and with a generous timeout, for every job in which a run timed out
+    (see run_impl)."""
+    res = vlib.run_harness(h, engine, jobs, shards=shards, timeout=3000, env_extra={"GOMAXPROCS": "2"})
+    again = [i for i, r in enumerate(res) if (pred or _timed_out)(r)][:200]
+    if again:
+        r2 = vlib.run_harness(h, engine, [dict(jobs[i], timeout_ms=20000) for i in again], shards=1, timeout=3000,
+                              env_extra={"GOMAXPROCS": "2"})
+        for i, r in zip(again, r2):
+            res[i] = r
+    return res
 
 
 RESET = ("set +e +u +o pipefail; trap - EXIT ERR; unset -f f g; unset x y z i l a; set --; true\n")
